@@ -777,7 +777,7 @@ theorem walk_erase {S : Schema} {F : Feats} (hA : Accepted S = true) (sels : Sel
             | none => rfl
             | some p => simp only [spreadPossible_erase hA harg (hp p rfl)]
           · simp only [hc, Bool.false_eq_true, ↓reduceIte, hnone]
-      · simp only [ho, Bool.false_eq_true, ↓reduceIte]
+      · simp only [ho, Bool.false_eq_true, ↓reduceIte, ihs parent hp]
 
 /-- The field `f` of type `p` exists, and both it and `p` pass the feature test. -/
 def fieldVisible (S : Schema) (F : Feats) (p f : String) : Prop :=
@@ -872,7 +872,10 @@ theorem walk_events_visible {S : Schema} {F : Feats} (hA : Accepted S = true) (s
             cases parent with
             | none => cases he
             | some p => simp only [List.mem_singleton] at he; subst he; exact hp p rfl
-          · simp only [hty, Bool.false_eq_true, ↓reduceIte] at he; cases he
+          · simp only [hty, Bool.false_eq_true, ↓reduceIte] at he
+            split at he
+            · exact ihs parent hp e he
+            · cases he
     · exact ihr parent hp e he
 
 theorem condsKnown_cons {v : View} {tag arg : String} {sub rest : Sels} (h : condsKnown v (.cons tag arg sub rest) = true) :
@@ -924,7 +927,7 @@ theorem exec_erase {S : Schema} {F : Feats} (hA : Accepted S = true) (world : St
           have harg : S.notHidden F arg = true := notHidden_of_lookupF hA hlk
           have := ihs objT ho hcs
           simp only [view_lookupRaw, view_fragApplies, lookupRaw_erase hu harg, fragApplies_erase hA ho harg, this]
-      · simp only [hoo, Bool.false_eq_true, ↓reduceIte]
+      · simp only [hoo, Bool.false_eq_true, ↓reduceIte, ihs objT ho hcs]
 
 theorem exec_events_visible {S : Schema} {F : Feats} (hA : Accepted S = true) (world : String → String → Option String)
     (sels : Sels) : ∀ objT, S.notHidden F objT = true →
@@ -971,7 +974,10 @@ theorem exec_events_visible {S : Schema} {F : Feats} (hA : Accepted S = true) (w
         · simp only [hoo, Bool.false_eq_true, ↓reduceIte] at he
           by_cases hty : (tag == "typename") = true
           · simp only [hty, ↓reduceIte, List.mem_singleton] at he; subst he; exact ho
-          · simp only [hty, Bool.false_eq_true, ↓reduceIte] at he; cases he
+          · simp only [hty, Bool.false_eq_true, ↓reduceIte] at he
+            split at he
+            · exact ihs objT ho e he
+            · cases he
     · exact ihr objT ho e he
 
 /-! ### `erase` preserves acceptance -/
